@@ -215,6 +215,9 @@ class Mini:
 
     def call_fn(self, path, args, crate=None):
         crate = crate or self.crate
+        for suffix, f in getattr(self, "overrides", {}).items():
+            if path.endswith(suffix):
+                return f(args)
         r, c2 = self.find_fn(path, crate)
         if r is None or r.get("hir") is None:
             raise Unsupported(f"no body for {path}")
@@ -899,7 +902,7 @@ class Mini:
             if nm == "len":
                 return len(recv)
             if nm == "iter":
-                return ("iter", list(recv))
+                return Iter(list(recv))
             if nm == "is_empty":
                 return len(recv) == 0
             if nm == "as_slice":
